@@ -365,7 +365,17 @@ fn scenario(rng: &mut Rng, thorough: bool, dm: &str) -> Outcome {
                 out.decided_order_pairs += 1;
                 if ra.2 > rb.2 {
                     out.violations.push((
-                        if a.delay_ms == b.delay_ms { "equal-delay-order-violated" } else { "due-order-violated" }.to_string(),
+                        // `a` is due earlier.  If it was also *scheduled* later than `b` (sb_a after sa_b) the
+                        // inversion is the known artifact of the timer crate's communication thread (the
+                        // request for `a` was still in transit when `b` fired); any other inversion is new.
+                        if a.delay_ms == b.delay_ms {
+                            "equal-delay-order-violated"
+                        } else if mark_time(&log, "sb", &a.uid).unwrap() > mark_time(&log, "sa", &b.uid).unwrap() {
+                            "due-order-violated:later-scheduled-event-overtaken-while-overdue"
+                        } else {
+                            "due-order-violated:earlier-scheduled-event-overtaken"
+                        }
+                        .to_string(),
                         format!(
                             "{} (delay {} ms) was due {:.2} ms before {} (delay {} ms) but was delivered after it",
                             a.uid,
